@@ -698,8 +698,11 @@ func TestCheck(t *testing.T) {
 			switch {
 			case f.Name == "multi-faun", f.Name == "multi", f.Name == "multi-srih" && r.Thorough():
 				paths = crossPaths(r.Thorough(), 6)
+				// plan H (ext_thresh_test.go): election inputs crossing a threshold
+				paths = append(paths, thrPaths(r.Thorough(), 6, f.Name == "multi-faun")...)
 			case f.Name == "single":
 				paths = crossPaths(r.Thorough(), 1) // one-block epochs: the committee is refreshed every block
+				paths = append(paths, thrPaths(r.Thorough(), 1, true)...)
 			case f.Name == "single-hf":
 				paths = hfPaths()
 			}
@@ -784,6 +787,15 @@ func TestCheck(t *testing.T) {
 	var xscs []*scenario
 	for _, xp := range xplans {
 		xscs = append(xscs, crossScenarios(r, xp.base, xp.paths)...)
+	}
+	if f := os.Getenv("C01_XONLY"); f != "" { // development aid: only the plan G/H paths whose "family/label" contains f
+		var keep []*scenario
+		for _, sc := range xscs {
+			if strings.Contains(sc.fam.Name+"/"+sc.label, f) {
+				keep = append(keep, sc)
+			}
+		}
+		xscs = keep
 	}
 	xbuilt := make([]bool, len(xscs))
 	r.Parallel(len(xscs), func(i int) {
@@ -915,6 +927,7 @@ func TestCheck(t *testing.T) {
 	}
 	r.Finish(map[string]any{
 		"plan_G_groups":                 xcount,
+		"plan_H_election_thresholds":    thrStats(xscs, xbuilt),
 		"plan_G_paths":                  len(xscs),
 		"plan_G_distinct_final_answers": xoutcomes.Len(),
 		"plan_G_templates":              min(len(xscs), 1) * len(crossTemplates()),
@@ -924,7 +937,7 @@ func TestCheck(t *testing.T) {
 		"traces_validated_against_impl": int(runs.Get()),
 		"histories":                     int(hist.Get()),
 		"distinct_state_roots":          roots.Len(),
-		"plans":                         "A: full alphabet of the tier, depth 2, all variants; B (thorough only): quick alphabet, depth 3, basic variants; C (single families): value flip/delete/re-create alphabet, depth 5, pruning/GC/latest-state and restart variants; D (single families): Policy whitelisted-method fee set / set again / removed / used, depth 4, same variants; F (single families): oracle request answered 0..MaxTraceableBlocks+2 blocks later, all variants; E (single families): candidate life cycle toggles (vote / registration) + idle blocks, depth 7 (<= 2 idle) / 8, restart variants; G (multi; single for designate/setters; single-hf for the block list across Faun): cross-native side effects (Policy block/unblock of candidate / voter / committee member / NEO holder / contract, Management destroy/update of a voting contract, deploy of a blocked hash, re-designation of notary/oracle/state validator nodes with the old list used in the same block, setters of NEO/Policy/Notary/Oracle values) at epoch phases first/inner/last block, history continued over two epoch boundaries + probe block, replayed with ONE restart after block k for every k from the block before the event on",
+		"plans":                         "A: full alphabet of the tier, depth 2, all variants; B (thorough only): quick alphabet, depth 3, basic variants; C (single families): value flip/delete/re-create alphabet, depth 5, pruning/GC/latest-state and restart variants; D (single families): Policy whitelisted-method fee set / set again / removed / used, depth 4, same variants; F (single families): oracle request answered 0..MaxTraceableBlocks+2 blocks later, all variants; E (single families): candidate life cycle toggles (vote / registration) + idle blocks, depth 7 (<= 2 idle) / 8, restart variants; G (multi; single for designate/setters; single-hf for the block list across Faun): cross-native side effects (Policy block/unblock of candidate / voter / committee member / NEO holder / contract, Management destroy/update of a voting contract, deploy of a blocked hash, re-designation of notary/oracle/state validator nodes with the old list used in the same block, setters of NEO/Policy/Notary/Oracle values) at epoch phases first/inner/last block, history continued over two epoch boundaries + probe block, replayed with ONE restart after block k for every k from the block before the event on; H (ext_thresh_test.go; single, multi-faun, a few on multi): election inputs crossing a threshold - voter turnout exactly at / one below / above 20% of the supply, registered candidates at n-1 / n / n+1 of the committee size, votes in a tie - crossed by ONE operation (vote, unvote, vote change, partial / whole-balance transfer from and to voters, unregistration with votes and the votes leaving later in one go, re-registration, registration by GAS payment, Policy block/unblock of a voter or candidate, NEO setters next to a vote) or by a pair (there and back again), same continuation and variants as G",
 		"block_alphabet":                tplNames(r),
 		"families":                      []string{"single", "single-srih", "multi", "multi-srih", "single-hf (Echidna@4, Faun@5, Gorgon@6)", "multi-faun (plan G only: 4/6 with every hardfork from genesis; 'multi' has Echidna@5 and no Faun)"},
 		"preamble_pads":                 pads,
@@ -965,12 +978,18 @@ func replay(r *vk.Run, fams []family, depth int) {
 	local := append(append(append(flipTemplates(), settingTemplates()...), lifecycleTemplates()...), crossTemplates()...)
 	seq := false // plan G histories are built on one reference node
 	for _, name := range c.History {
-		seq = seq || strings.HasPrefix(name, "x-")
+		seq = seq || strings.HasPrefix(name, "x-") || strings.HasPrefix(name, thrPrefix)
 	}
 	var tpls []chainx.Tpl
 	for _, name := range c.History {
 		found := false
+		if strings.HasPrefix(name, thrPrefix) {
+			tpls, found = append(tpls, thrTpl(name)), true
+		}
 		for _, t := range local {
+			if found {
+				break
+			}
 			if t.Name == name && name != "empty" {
 				tpls, found = append(tpls, t), true
 				break
